@@ -536,6 +536,15 @@ func (e *SpecEnv) call(n *ast.CallExpr) TV {
 		n2 := *e
 		n2.inOld = true
 		return n2.expr(n.Args[0])
+	case "let":
+		// let(x, value, body): value is evaluated in the enclosing state (so a
+		// post-state value can be used inside old(...))
+		id, ok := n.Args[0].(*ast.Ident)
+		if !ok || len(n.Args) != 3 {
+			e.fail("let(x, value, body)")
+		}
+		v := e.defaultType(arg(1))
+		return e.with(id.Name, v).expr(n.Args[2])
 	case "forall", "exists", "forallref", "existsref":
 		id, ok := n.Args[0].(*ast.Ident)
 		if !ok {
